@@ -134,12 +134,25 @@ func (l *Lexer) Run(in []byte) *Result {
 				break
 			}
 		}
+		if win >= 0 && pos == off {
+			// An empty match is acted on only when it pops the mode and pushes
+			// none (each such step shrinks the mode stack); any other empty
+			// match would make no progress and counts as no match.
+			res.EpsMatch = true
+			if a := rules[win].Act; !(a.Pop && a.Push < 0) {
+				res.StuckAtEps = true
+				win = -1
+			}
+		}
 		c, _ := decode(in, pos)
 		if win < 0 {
 			if pos == off && c < 0 {
 				// end of input at a token boundary
 				if start != off {
+					// pending accumulated text cannot be dropped silently
 					res.PendingAtEOF = true
+					res.Toks = append(res.Toks, Token{Type: 1, Off: start, ErrCh: c})
+					return res
 				}
 				res.Toks = append(res.Toks, Token{Type: 0, Off: start, Len: 0})
 				return res
@@ -149,13 +162,6 @@ func (l *Lexer) Run(in []byte) *Result {
 		}
 		res.RulesFired[[2]int{mode, win}]++
 		act := rules[win].Act
-		if pos == off {
-			res.EpsMatch = true
-			if act.Push < 0 && !act.Pop {
-				res.StuckAtEps = true
-				return res
-			}
-		}
 		if act.Push >= 0 {
 			stack = append(stack, mode)
 			mode = act.Push
